@@ -152,6 +152,7 @@ fn check<C: Pv>(c: &Case) -> Report {
     let npo = NpoSel {
         recompose: c.prog.recompose_npo,
         debug_lookups: false,
+        poseidon2: None,
     };
     let mixed = connects.iter().any(|(a, b)| a != b);
     let mut rep = Report::pass()
